@@ -27,7 +27,7 @@ RULE = (
 )
 REQUIRED = ["readonly.observables", "readonly.arguments", "readonly.module_defaults", "readonly.solve_repeatable",
             "battlife.restored_on_return", "battlife.restored_on_dfunc_raise", "battlife.restored_on_pfunc_raise",
-            "battlife.restored_on_solver_raise"]
+            "battlife.restored_on_solver_raise", "readonly.later_result_as_pristine"]
 CASE_TIMEOUT = 600  # seconds; generous (one battlife case = up to 2 x steps complete depletion runs)
 SIZES = {"quick": 50, "thorough": 420}
 ASSUMPTIONS = ["diagram calls render through the local Graphviz 'dot' binary into a temporary directory (format raw)"]
@@ -341,6 +341,31 @@ def run_interleave(ctx, case, ns, rng, spec, sysobj):
                 ctx.check("readonly.solve_repeatable", not diffs, {"differences": diffs[:5]})
             else:
                 ctx.check("readonly.solve_repeatable", s1 == s2, {"first": s1, "second": s2})
+        # "interleaving changes no later result": calls with arguments NOT used so far give what a pristine system
+        # (built the same way, never analysed) gives for the same call
+        for sp, sj in systems:
+            phs = list((sp.get("phases") or {}).keys())
+            for _ in range(2):
+                kw = dict(ta=rng.choice([-20.0, 60.0, 85.0, rng.uniform(-40, 125)]), energy=rng.random() < 0.5)
+                if rng.random() < 0.4:
+                    kw.update(vtol=1e-8, itol=1e-8)
+                if phs and rng.random() < 0.4:
+                    kw["phase"] = rng.choice(phs)
+                which = rng.choice(["solve", "solve", "rail_rep"])
+                if which == "rail_rep":
+                    kw.pop("energy", None)
+                stp, pristine = H.try_build(sp)
+                if stp != "ok":
+                    continue
+                s1, a = H.call(getattr(sj, which), **kw)
+                s2, b = H.call(getattr(pristine, which), **kw)
+                det = {"call": which, "kwargs": kw, "kind": "later/" + which}
+                if s1 == "ok" and s2 == "ok":
+                    diffs = H.frames_equal(a, b, rel=1e-9)
+                    ctx.check("readonly.later_result_as_pristine", not diffs, dict(det, differences_used_vs_pristine=diffs[:5]))
+                else:
+                    ctx.check("readonly.later_result_as_pristine", s1 == s2, dict(det, used=s1, pristine=s2,
+                                                                                  exception=H.exc_sig(a if s1 != "ok" else b)))
     if ncalls >= 12 and len(kinds_called) >= 6:
         ctx.nontrivial(["interleave", case["seed"]])
     ctx.sample({"mode": "interleave", "systems": len(systems), "calls": sorted(kinds_called)})
